@@ -75,8 +75,8 @@ def showOp : FOp → String
   | .close => "c"
 
 /-- `witness <tag> <mode> <bufsize> <init|absent> <ops…>`, joined by ` || ` -/
-def witnessLines : String :=
-  " || ".intercalate (PV.Props.C27.witnesses.map fun (tag, w) =>
+def progLines (ws : List (String × PV.Props.C27.Prog)) : String :=
+  " || ".intercalate (ws.map fun (tag, w) =>
     "witness " ++ tag ++ " " ++ w.mode ++ " " ++ toString w.bufsize ++ " " ++
       (match w.init with | none => "absent" | some b => toHexTok b) ++ " " ++ " ".intercalate (w.ops.map showOp))
 
@@ -106,7 +106,8 @@ def step' (line : String) : String :=
       mpart.1 ++ " ; " ++ mpart.2.1 ++ " ; " ++ spart.1 ++ " ; " ++ spart.2.1 ++ " ; " ++ mpart.2.2.1 ++ " ; " ++
         mpart.2.2.2.1 ++ " ; " ++ spart.2.2 ++ " ; " ++ mpart.2.2.2.2
     | _, _, _, _, _ => "bad-op"
-  | ["witnesses"] => witnessLines
+  | ["witnesses"] => progLines PV.Props.C27.witnesses
+  | ["legacy"] => progLines PV.Props.C27.legacyWitnesses
   | _ => "bad-op"
 
 def main : IO Unit := lineLoop step'
